@@ -39,6 +39,9 @@ CHECKS = {
  "C18": dict(cat="exploration", tech="deviation-bounded exhaustive exploration of the whole pipeline in watchdog-guarded worker subprocesses: corpus (0 deviations), every single token-level mutation (1), pairs within a line (2, thorough), every nesting construct at every depth 1..64, all strings of length <= 3 over a 24-symbol alphabet in 5 slots",
    text="Every public stage (parse, format, type check, token map, transform, linearize, all renderings, standardise, tableau simplex, auto solver, one-shot solver, every error renderer) is run on every generated text under catch_unwind inside worker subprocesses with an 8 MiB stack, a 3 GiB address-space limit and an 8 s per-case watchdog; a panic, abort, stack overflow, allocation failure, timeout or failing error rendering is a violation attributed to the stage and mutation class.",
    note="Trusted: the mutation lexer and the subprocess/watchdog machinery. Does not cover arbitrary byte noise beyond length 3 (sampling is outside the technique) nor inputs larger than the corpus programs.", ref="4/C18"),
+ "C19": dict(cat="exploration", tech="exhaustive enumeration of (template x typed atom) programs (singles, scoped, wrong-arity, and all atom pairs for two-hole templates); type checker verdict compared with the transform error kind",
+   text="66 single-hole templates covering every operand, block, scoped body, iterator, range end, destructuring, index, function-argument, declaration-bound/iterator, constraint-iterator/name and constant position are filled with each of 30 typed atoms (and 6 scoped atoms in 8 scoped templates); 22 wrong-arity calls; thorough adds 12 two-hole templates x all atom pairs. Whenever create_type_checker accepts, transform must succeed or fail with a data-dependent kind only.",
+   note="Trusted: the classification of TransformError kinds into type-class vs data-dependent (stated in the evidence assumptions); BinOpError between numeric kinds and UndeclaredVariableDomain (missing family member) count as data-dependent.", ref="4/C19"),
 }
 NA_REASON = "engine not built yet in this round (planned, see DESIGN.md section 4); not claimed until its check exists"
 ALL = ["C%02d" % i for i in range(1, 21)]
